@@ -9,6 +9,8 @@ import (
 	"sort"
 	"strings"
 	"time"
+	"verifharness/internal/doctree"
+	"verifharness/internal/jsonv"
 
 	"verifharness/internal/e3"
 	"verifharness/internal/ev"
@@ -110,7 +112,7 @@ func Main(args []string) int {
 				rejected[origin[j.Key]] = first(msg)
 				continue
 			}
-			pk = append(pk, servlab.C04Pkg{Key: j.Key, Origin: origin[j.Key], Values: values})
+			pk = append(pk, servlab.C04Pkg{Key: j.Key, Origin: origin[j.Key], Values: values, TypeSchemas: drv.TypeSchemas[j.Key], Components: componentSchemas(j.Spec)})
 		}
 		o := ""
 		if only != "" {
@@ -164,3 +166,17 @@ func first(s string) string {
 
 // ConformancePart is set by the vf main package (sl/c03 drives it).
 var ConformancePart = func(r *ev.Run) int { return 0 }
+
+// componentSchemas returns components.schemas of a document as compact JSON (for the conformance of corpus types:
+// a type the generator built from #/components/schemas/<name> must encode to JSON valid against that schema).
+func componentSchemas(spec []byte) string {
+	tree, err := doctree.Load(spec)
+	if err != nil || tree == nil {
+		return ""
+	}
+	c := tree.Get("components")
+	if c == nil || c.Get("schemas") == nil || c.Get("schemas").Kind != jsonv.Object {
+		return ""
+	}
+	return string(jsonv.Compact(c.Get("schemas")))
+}
